@@ -4,4 +4,7 @@ set -e
 cd "$(dirname "$0")"
 export PYTHONPATH="${PINT_REPO:-/repo}:$(pwd)" PYTHONHASHSEED=0 PYTHONDONTWRITEBYTECODE=1
 mkdir -p build evidence replays
+# pint's user-level disk cache (cache_folder=":auto:", used by one test) is keyed by file content but stores
+# absolute paths; entries written from scratch worktrees make /repo's test_diskcache.py::test_auto fail
+rm -rf "${XDG_CACHE_HOME:-$HOME/.cache}/pint"
 /venv/bin/python -m harness.setup_build
